@@ -124,17 +124,52 @@ ArrayCheck(dims, obj, memo, args, lab, flatten) ==
 (* ---- the set of verdicts the property statement permits ----              *)
 (* The statement does not fix the order in which a mismatch and an           *)
 (* unresolvable symbolic axis (or a '?' axis outside a structured PyTree)    *)
-(* are discovered, so when the annotation contains such an axis a failing    *)
-(* check may answer "F" or raise; and where the walk never has to evaluate   *)
-(* the offending axis (e.g. '#' with size 1) a passing check may also raise. *)
+(* are discovered: when examining ALL axes (Kinds) finds both kinds of       *)
+(* failure, a failing check may answer "F" or raise; and where the walk      *)
+(* never has to evaluate an offending axis (e.g. '#' with size 1) a passing  *)
+(* check may also raise.  Nothing else is allowed.                           *)
 SymUnresolvedInitially(dims, memo, args) ==
   \E i \in DOMAIN dims : dims[i].k = "sym" /\ Eval(dims[i].e, memo.single, args) = NoVal
 QMisuse(dims, lab) == lab = NoLabel /\ \E i \in DOMAIN dims : dims[i].tp /\ dims[i].k \in {"named", "nvar"}
+
+\* every kind of failure present in the annotation when ALL non-variadic axes are examined left to right
+\* (binding names on the way, continuing past failures, and evaluating also where '#' with size 1 would
+\* let the walk skip the axis): [ks |-> subset of {"F","E"}, m |-> bindings]
+RECURSIVE Kinds(_, _, _, _, _)
+Kinds(dims, shape, single, args, lab) ==
+  IF dims = << >> THEN [ks |-> {}, m |-> single]
+  ELSE LET d == Head(dims)   n == Head(shape)
+           rest(sg, k) == LET r == Kinds(Tail(dims), Tail(shape), sg, args, lab) IN [ks |-> k \cup r.ks, m |-> r.m]
+           one == d.b /\ n = 1
+       IN CASE d.k = "anon" -> rest(single, {})
+            [] d.k = "fix" -> rest(single, IF d.sz = n \/ one THEN {} ELSE {"F"})
+            [] d.k = "sym" -> LET v == Eval(d.e, single, args) IN
+                              IF v = NoVal THEN rest(single, {"E"}) ELSE rest(single, IF v = n \/ one THEN {} ELSE {"F"})
+            [] OTHER -> IF d.tp /\ lab = NoLabel THEN rest(single, {"E"})
+                        ELSE LET k == Key(d, lab) IN
+                             IF k \notin DOMAIN single THEN (IF one THEN rest(single, {}) ELSE rest(Bind(single, k, n), {}))
+                             ELSE rest(single, IF single[k] = n \/ one THEN {} ELSE {"F"})
+
+AllKinds(dims, shape, memo, args, lab) ==
+  LET iv == VarIndex(dims) IN
+  IF iv = 0 THEN Kinds(dims, shape, memo.single, args, lab).ks
+  ELSE LET nsuf == Len(dims) - iv
+           nonvar == Sub(dims, 1, iv - 1) \o Sub(dims, iv + 1, Len(dims))
+           elems == Sub(shape, 1, iv - 1) \o Sub(shape, Len(shape) - nsuf + 1, Len(shape))
+           w == Kinds(nonvar, elems, memo.single, args, lab)
+           vr == CheckShape(<<dims[iv]>>, Sub(shape, iv, Len(shape) - nsuf), Memo(w.m, memo.variadic), args, lab).r
+       IN w.ks \cup (IF vr = "T" THEN {} ELSE {vr})
+
+RankOK(dims, shape) == IF VarIndex(dims) = 0 THEN Len(shape) = Len(dims) ELSE Len(shape) >= Len(dims) - 1
+
+\* c = ArrayCheck(...) of the same arguments
 AllowedFrom(c, dims, obj, memo, args, lab, flatten) ==
-  IF obj.inst /\ ~flatten /\ obj.dtin
-     /\ (SymUnresolvedInitially(dims, memo, args) \/ QMisuse(dims, lab))
-  THEN (IF c.r \in {"F", "E"} THEN {"F", "E"} ELSE {"T", "E"})
-  ELSE {c.r}
+  IF ~(obj.inst /\ ~flatten /\ obj.dtin) THEN {c.r}
+  ELSE IF ~RankOK(dims, obj.shape)
+       THEN (IF SymUnresolvedInitially(dims, memo, args) \/ QMisuse(dims, lab) THEN {"F", "E"} ELSE {c.r})
+  ELSE LET ks == AllKinds(dims, obj.shape, memo, args, lab) IN
+       IF c.r = "T" THEN (IF "E" \in ks THEN {"T", "E"} ELSE {"T"})       \* an axis the walk never had to evaluate
+       ELSE IF {"F", "E"} \subseteq ks THEN {"F", "E"} ELSE {c.r}
 Allowed(dims, obj, memo, args, lab, flatten) ==
   AllowedFrom(ArrayCheck(dims, obj, memo, args, lab, flatten), dims, obj, memo, args, lab, flatten)
 
